@@ -26,6 +26,7 @@ func c05Opts(rng *vlib.Rng) idl.GenOpts {
 	o.UnionDefault = true
 	o.TypedefEnumSel = true
 	o.HexIDs = true
+	o.DottedFiles = rng.Chance(1, 3)
 	return o
 }
 
